@@ -26,11 +26,12 @@ pub struct Frag {
     pub col: Collector,
     pub assumptions: Vec<String>,
     pub extra: serde_json::Map<String, Value>,
+    pub e2_traces: Vec<Value>,
 }
 
 impl Frag {
     pub fn new() -> Frag {
-        Frag { parts: vec![], states: 0, transitions: 0, traces_validated: 0, samples: vec![], exhaustive: true, col: Collector::default(), assumptions: vec![], extra: Default::default() }
+        Frag { parts: vec![], states: 0, transitions: 0, traces_validated: 0, samples: vec![], exhaustive: true, col: Collector::default(), assumptions: vec![], extra: Default::default(), e2_traces: vec![] }
     }
 }
 
@@ -227,4 +228,228 @@ pub fn run_regressions(prop: &str, frag: &mut Frag) {
     if n > 0 {
         frag.parts.push(json!({"engine":"E1 planmc","profile":"regression inputs of repaired defects","inputs":n}));
     }
+}
+
+// ---------------------------------------------------------------------------
+// E2
+// ---------------------------------------------------------------------------
+
+use crate::schedmc::{explore_scenario, ExploreOpts, Mode, Mon, ScResult, Scenario};
+use crate::spec::{plan_short, Op, PlanInfo};
+
+/// All sequences of `profile` up to `depth`, de-duplicated by what an
+/// execution can observe: executed layout + per-system access / deps / barriers.
+pub fn distinct_plans(profile: &Profile, depth: usize, min_len: usize) -> Vec<Vec<Op>> {
+    let mut out: Vec<Vec<Op>> = Vec::new();
+    let mut seen = std::collections::HashSet::new();
+    fn rec(profile: &Profile, depth: usize, min_len: usize, prefix: &mut Vec<Op>, out: &mut Vec<Vec<Op>>, seen: &mut std::collections::HashSet<String>) {
+        if prefix.len() >= min_len {
+            let info = PlanInfo::of(prefix);
+            if let Ok(l) = crate::obs::layout_of(prefix, &crate::hsys::Ctx::identity_map()) {
+                let key = format!(
+                    "{}|{:?}",
+                    l.short(),
+                    info.nodes.iter().map(|n| (n.kind as u8, n.eff_reads, n.eff_writes, n.reads.clone(), n.writes.clone(), n.deps.clone(), n.name.is_empty(), n.barriers_before, n.times, n.multi)).collect::<Vec<_>>()
+                );
+                if seen.insert(key) {
+                    out.push(prefix.clone());
+                }
+            }
+        }
+        if prefix.len() >= depth {
+            return;
+        }
+        for (op, term) in profile.children(prefix) {
+            if term {
+                continue;
+            }
+            prefix.push(op);
+            rec(profile, depth, min_len, prefix, out, seen);
+            prefix.pop();
+        }
+    }
+    let mut p = Vec::new();
+    rec(profile, depth, min_len, &mut p, &mut out, &mut seen);
+    out
+}
+
+pub struct E2Job {
+    pub label: String,
+    pub scenarios: Vec<Scenario>,
+    pub bounds: Vec<u32>,
+}
+
+fn scen(plans: &[Vec<Op>], modes: &[Mode], dispatches: &[u8]) -> Vec<Scenario> {
+    let mut v = Vec::new();
+    for p in plans {
+        for m in modes {
+            for d in dispatches {
+                v.push(Scenario::plain(p.clone(), *m, *d));
+            }
+        }
+    }
+    v
+}
+
+pub fn e2_jobs(prop: &str, tier: Tier) -> Vec<E2Job> {
+    let q = tier == Tier::Quick;
+    let all_modes = [Mode::Dispatch, Mode::Par, Mode::Seq, Mode::Async];
+    let core_acc = acc(&[(&[], &[]), (&[0], &[]), (&[], &[0]), (&[1], &[]), (&[], &[1]), (&[0], &[1])]);
+    let core = |times: Vec<u8>, depth| distinct_plans(&Profile::B { access: core_acc.clone(), times, unnamed: false, dup: false, pairs: false }, depth, 2);
+    let nores = |depth| distinct_plans(&Profile::B { access: acc(&[(&[], &[]), (&[], &[0])]), times: vec![3], unnamed: false, dup: false, pairs: true }, depth, 2);
+    let barr = |depth| distinct_plans(&Profile::D { access: acc(&[(&[], &[]), (&[], &[0])]) }, depth, 2);
+    let batch = |m, rich, depth| distinct_plans(&Profile::E { inner_max: m, rich }, depth, 1);
+    let tl = |depth| distinct_plans(&Profile::F, depth, 1);
+    let eb = |depth| distinct_plans(&Profile::EB, depth, 1);
+    let b = |hi: u32| -> Vec<u32> { (0..=hi).collect() };
+    let mut jobs = Vec::new();
+    match prop {
+        "C01" | "C04" | "C05" => {
+            jobs.push(E2Job { label: "core plans (deps off: access only), every mode".into(), scenarios: scen(&core(vec![3], if q { 3 } else { 3 }), &all_modes, &[1]), bounds: b(if q { 2 } else { 3 }) });
+            jobs.push(E2Job { label: "core plans with running-time hints {1,5} (groups of 2+), 2 dispatches".into(), scenarios: scen(&core(vec![1, 5], 3), &[Mode::Dispatch], &[2]), bounds: b(if q { 1 } else { 2 }) });
+            jobs.push(E2Job { label: "small batch plans".into(), scenarios: scen(&eb(2), &[Mode::Dispatch], &[1]), bounds: b(if q { 1 } else { 2 }) });
+            if !q {
+                jobs.push(E2Job { label: "core plans depth 4, dispatch".into(), scenarios: scen(&core(vec![3], 4), &[Mode::Dispatch], &[1]), bounds: b(2) });
+                jobs.push(E2Job { label: "barrier plans".into(), scenarios: scen(&barr(4), &[Mode::Dispatch, Mode::Async], &[1, 2]), bounds: b(2) });
+            }
+        }
+        "C02" => {
+            jobs.push(E2Job { label: "dependency plans (resource-less or one writer)".into(), scenarios: scen(&nores(if q { 3 } else { 4 }), &[Mode::Dispatch, Mode::Par, Mode::Async], &[1]), bounds: b(if q { 2 } else { 3 }) });
+            jobs.push(E2Job { label: "dependency plans, 2 dispatches".into(), scenarios: scen(&nores(3), &[Mode::Dispatch, Mode::Async], &[2]), bounds: b(if q { 1 } else { 2 }) });
+        }
+        "C03" => {
+            jobs.push(E2Job { label: "barrier plans (resource-less or one writer)".into(), scenarios: scen(&barr(if q { 4 } else { 5 }), &[Mode::Dispatch, Mode::Par, Mode::Async], &[1]), bounds: b(if q { 2 } else { 3 }) });
+        }
+        "C07" => {
+            jobs.push(E2Job { label: "small batch plans, 2 outer ops".into(), scenarios: scen(&eb(2), &[Mode::Dispatch, Mode::Par], &[1]), bounds: b(if q { 1 } else { 2 }) });
+            jobs.push(E2Job { label: "single batch, 2 dispatches".into(), scenarios: scen(&eb(1), &[Mode::Dispatch, Mode::Async], &[2]), bounds: b(2) });
+            if !q {
+                jobs.push(E2Job { label: "small batch plans, 3 outer ops".into(), scenarios: scen(&eb(3), &[Mode::Dispatch], &[1]), bounds: b(1) });
+                jobs.push(E2Job { label: "batch plans, inner plans of <= 1 op".into(), scenarios: scen(&batch(1, true, 2), &[Mode::Dispatch], &[1]), bounds: b(1) });
+            }
+        }
+        "C12" => {
+            jobs.push(E2Job { label: "thread-local plans, <= 2 ops".into(), scenarios: scen(&tl(2), &[Mode::Dispatch, Mode::Par, Mode::Seq, Mode::Async], &[1, 2]), bounds: b(if q { 2 } else { 3 }) });
+            jobs.push(E2Job { label: "thread-local plans, 3 ops".into(), scenarios: scen(&tl(3).into_iter().filter(|p| p.len() == 3).collect::<Vec<_>>(), &[Mode::Dispatch, Mode::Async], &[1]), bounds: b(if q { 1 } else { 2 }) });
+            if !q {
+                jobs.push(E2Job { label: "thread-local plans, 4 ops".into(), scenarios: scen(&tl(4).into_iter().filter(|p| p.len() == 4).collect::<Vec<_>>(), &[Mode::Dispatch], &[1]), bounds: b(1) });
+            }
+        }
+        _ => {}
+    }
+    jobs
+}
+
+pub fn run_e2(prop: &str, tier: Tier, budget: Duration, frag: &mut Frag) {
+    let jobs = e2_jobs(prop, tier);
+    if jobs.is_empty() {
+        return;
+    }
+    let mon = Mon::of(prop);
+    let start = Instant::now();
+    let njobs = jobs.len();
+    for (k, job) in jobs.into_iter().enumerate() {
+        let remaining = budget.saturating_sub(start.elapsed());
+        let share = remaining / (njobs - k) as u32;
+        let t0 = Instant::now();
+        let opts = ExploreOpts { bounds: job.bounds.clone(), all_points: false, deadline: t0 + share, max_execs: u64::MAX, keep_traces: 4, deadlock_prop: None };
+        let r = run_scenarios(&job.scenarios, mon, &opts);
+        let wall = t0.elapsed().as_secs_f64();
+        frag.parts.push(json!({
+            "engine": "E2 schedmc",
+            "scenarios": job.label,
+            "n_scenarios": job.scenarios.len(),
+            "scenarios_completed": r.completed,
+            "preemption_bounds": job.bounds,
+            "min_bound_completed": r.min_bound,
+            "schedules": r.executions,
+            "states": r.nodes,
+            "transitions": r.transitions,
+            "distinct_event_traces": r.traces,
+            "max_distinct_outcomes_per_scenario": r.max_outcomes,
+            "window_overlaps_witnessed": r.overlaps,
+            "cap_hit": r.capped,
+            "wall_s": wall,
+        }));
+        frag.states += r.nodes;
+        frag.transitions += r.transitions;
+        frag.exhaustive &= !r.capped;
+        if let Some(s) = r.sample {
+            if frag.samples.len() < 8 {
+                frag.samples.push(s);
+            }
+        }
+        frag.e2_traces.extend(r.kept);
+        frag.col.merge(r.col);
+    }
+}
+
+pub struct MultiResult {
+    pub executions: u64,
+    pub nodes: u64,
+    pub transitions: u64,
+    pub traces: u64,
+    pub max_outcomes: u64,
+    pub overlaps: u64,
+    pub capped: bool,
+    pub completed: usize,
+    pub min_bound: i64,
+    pub deadlocks: u64,
+    pub col: Collector,
+    pub sample: Option<Value>,
+    pub kept: Vec<Value>,
+}
+
+pub fn run_scenarios(scs: &[Scenario], mon: Mon, opts: &ExploreOpts) -> MultiResult {
+    use std::sync::atomic::{AtomicUsize, Ordering};
+    let next = AtomicUsize::new(0);
+    let results: std::sync::Mutex<Vec<(usize, ScResult)>> = std::sync::Mutex::new(Vec::new());
+    let _ = &next;
+    let scs_arc = std::sync::Arc::new(scs.to_vec());
+    let next_arc = std::sync::Arc::new(AtomicUsize::new(0));
+    let res_arc: std::sync::Arc<std::sync::Mutex<Vec<(usize, ScResult)>>> = std::sync::Arc::new(std::sync::Mutex::new(Vec::new()));
+    std::thread::scope(|s| {
+        for _ in 0..threads().min(scs.len().max(1)) {
+            let (a, n, r, o) = (scs_arc.clone(), next_arc.clone(), res_arc.clone(), opts.clone());
+            s.spawn(move || {
+                let mut d = crate::schedmc::Driver::new(a, n, mon, o, r);
+                crate::sched::run_jobs(Box::new(move || d.next_job()));
+            });
+        }
+    });
+    results.lock().unwrap().extend(std::mem::take(&mut *res_arc.lock().unwrap()));
+    let mut m = MultiResult { executions: 0, nodes: 0, transitions: 0, traces: 0, max_outcomes: 0, overlaps: 0, capped: false, completed: 0, min_bound: i64::MAX, deadlocks: 0, col: Collector::default(), sample: None, kept: vec![] };
+    let mut rs = results.into_inner().unwrap();
+    rs.sort_by_key(|x| x.0);
+    for (i, r) in rs {
+        m.executions += r.stats.executions;
+        m.nodes += r.stats.nodes;
+        m.transitions += r.stats.transitions;
+        m.traces += r.stats.distinct_traces;
+        m.max_outcomes = m.max_outcomes.max(r.stats.distinct_outcomes);
+        m.overlaps += r.stats.overlaps_seen;
+        m.deadlocks += r.stats.deadlocks;
+        m.capped |= r.stats.capped;
+        if !r.stats.capped {
+            m.completed += 1;
+        }
+        m.min_bound = m.min_bound.min(r.stats.bound_completed);
+        if let Some(d) = r.divergence {
+            m.col.add(crate::report::Finding { prop: "MACHINERY".into(), sig: "divergence".into(), msg: format!("{} | {}", d, plan_short(&scs[i].ops)), replay: json!({}), size: 0 });
+        }
+        if m.sample.is_none() && r.stats.distinct_traces > 3 {
+            if let Some(t) = r.traces.last() {
+                m.sample = Some(json!({"scenario": scs[i].to_json()["plan"], "mode": scs[i].mode.label(), "schedules": r.stats.executions, "distinct_traces": r.stats.distinct_traces,
+                    "one_trace": t.iter().map(|(k, s)| format!("{:?}({})", k, s)).collect::<Vec<_>>().join(" ")}));
+            }
+        }
+        for t in &r.traces {
+            m.kept.push(json!({"scenario": scs[i].to_json(), "trace": t.iter().map(|(k, s)| json!([format!("{:?}", k), s])).collect::<Vec<_>>()}));
+        }
+        m.col.merge(r.col);
+    }
+    if m.min_bound == i64::MAX {
+        m.min_bound = -1;
+    }
+    m
 }
